@@ -3,15 +3,15 @@ CONSTANTS Kinds = {"plain"}
           MixedServerSet = {}
           MixedCoreServers = {}
           MixedMethKeys = {"G", "GP"}
-          PlainMethKeys = {"G", "GR"}
+          PlainMethKeys = {"G", "P", "GR"}
           MaxLen = 2
           MaxT = 2
           ServerSet = {"schemes", "ports", "dup", "absbv", "relbv", "absbvx", "relbvx", "abshx", "abspx", "psschemes", "absschv", "schvdup", "psrel", "psvar", "abspe", "abspe2", "abshe"}
           CoreLen = 2
           CoreT = 1
           CoreServers = {"schemes", "ports", "dup", "absbv", "relbv", "absbvx", "relbvx", "abshx", "abspx", "psschemes", "absschv", "schvdup", "psrel", "psvar", "abspe", "abspe2", "abshe"}
-          Slice = 48
+          Slice = 6
           Seed = 1
-          DesignAll = FALSE
+          DesignAll = TRUE
 INVARIANTS DesignOK Emit
 CHECK_DEADLOCK FALSE
